@@ -10,12 +10,13 @@
 //	                          SAME api key at versions on both sides of its flexible boundary for <ms> milliseconds;
 //	                          every result is compared with what was encoded (header fields, body bytes, re-encoded
 //	                          decoded request).  Prints `conc ok parses=N` or `conc mismatch <what> rt <k> <v> <corr> <cid> <payload>`
-//	verif_c10                 op loop
+//	verif_c10                 op loop (hdr / skip / frame / frames / rt / enc lines)
 package main
 
 import (
 	"bufio"
 	"bytes"
+	"encoding/binary"
 	"encoding/hex"
 	"errors"
 	"fmt"
@@ -230,6 +231,55 @@ func doOp(f []string) (out string) {
 			ps = append(ps, hx(fr.Payload))
 		}
 		return fmt.Sprintf("frames n=%d payloads=%s end=%s", len(ps), strings.Join(ps, "|"), end)
+	case f[0] == "enc" && len(f) == 6:
+		// what a client writes: header fields + (flexible versions) a tagged-field section, built with encoding/binary
+		// (binary.AppendUvarint) — ties the model's encodeHeader/putUvarint (the encoder of the round-trip theorem) to Go's
+		k, e1 := strconv.ParseInt(f[1], 10, 16)
+		v, e2 := strconv.ParseInt(f[2], 10, 16)
+		c, e3 := strconv.ParseInt(f[3], 10, 32)
+		if e1 != nil || e2 != nil || e3 != nil {
+			return "bad-op"
+		}
+		out := binary.BigEndian.AppendUint16(nil, uint16(int16(k)))
+		out = binary.BigEndian.AppendUint16(out, uint16(int16(v)))
+		out = binary.BigEndian.AppendUint32(out, uint32(int32(c)))
+		if f[4] == "null" {
+			out = append(out, 0xff, 0xff)
+		} else {
+			cid, ok := unhx(f[4])
+			if !ok || len(cid) > 32767 {
+				return "bad-op"
+			}
+			out = binary.BigEndian.AppendUint16(out, uint16(len(cid)))
+			out = append(out, cid...)
+		}
+		flexible := false
+		if req := kmsg.RequestForKey(int16(k)); req != nil {
+			req.SetVersion(int16(v))
+			flexible = req.IsFlexible()
+		}
+		if flexible {
+			var tags []string
+			if f[5] != "-" {
+				tags = strings.Split(f[5], ",")
+			}
+			out = binary.AppendUvarint(out, uint64(len(tags)))
+			for _, t := range tags {
+				kv := strings.SplitN(t, ":", 2)
+				if len(kv) != 2 {
+					return "bad-op"
+				}
+				tag, err := strconv.ParseUint(kv[0], 10, 64)
+				data, ok := unhx(kv[1])
+				if err != nil || !ok {
+					return "bad-op"
+				}
+				out = binary.AppendUvarint(out, tag)
+				out = binary.AppendUvarint(out, uint64(len(data)))
+				out = append(out, data...)
+			}
+		}
+		return "enc " + hx(out)
 	case f[0] == "rt" && len(f) == 6:
 		k, e1 := strconv.Atoi(f[1])
 		v, e2 := strconv.Atoi(f[2])
